@@ -121,7 +121,7 @@ Lemma raw_set_bit_true r p : raw_wf r -> p < rlen r ->
     forall q, bit (rdata r') q = if q =? p then true else bit (rdata r) q.
 Proof.
   intros Hwf Hp. destruct Hwf as [Hl [Hw [Hu Hlt]]].
-  unfold raw_set_bit. replace (p <? rlen r) with true by lia. cbn [negb]. rewrite split_offset_spec.
+  unfold raw_set_bit. replace (p <? rlen r) with true by lia. unfold raw_set_bit_body. rewrite split_offset_spec.
   assert (Hi : p / 64 < lenN (rdata r)) by (rewrite Hl; lia).
   rewrite idx_getw by exact Hi. cbn [bind]. rewrite upd_ok by exact Hi. cbn [bind].
   eexists. split; [reflexivity|]. cbn [rlen rdata].
